@@ -102,6 +102,95 @@ def notes_in_file_order(run: Run, model: PyModel) -> None:
     run.floor("Page.notes evaluations", n_eval, 4)
 
 
+def built_page_scenarios(run: Run, model: PyModel, tree0, rid: str = "C01.R4") -> None:
+    """One note per item, none lost: concrete pages are driven through the listener in ParseTreeWalker order (drive.py) and `Page.notes` is then evaluated on the page object the
+    listener built -- the notes it yields are exactly the notes constructed, in file order.  Shapes: the page's body opens with an H2 section (no loose block, no H1 before it);
+    loose items, then an H2 section, then H1 sections; H1 sections only, nested down to H4 with sibling sub-sections."""
+    from ..absint import Raised, State
+    from ..absval import HObj, Opaque, Ref
+    from ..drive import Driver, T, header_tree, head_tree, item_tree
+    from ..grammar import FILE_LEXER, LexerGrammar
+
+    lx = LexerGrammar(run.repo, FILE_LEXER)
+    H = {l: lx.literal_of(f"H{l}_HEADER") for l in (1, 2, 3, 4)}
+    if any(v is None for v in H.values()):
+        run.undecided(rid, "lexer", "cannot read the section markers from the lexer grammar")
+        return
+    n_pages = 0
+    for label, loose, early in (("an H2 section as the very first thing of the body", False, True), ("loose items, then an H2 section, in front of the first H1", True, True),
+                                ("H1 sections only", False, False), ("loose items only in front of the first H1", True, False)):
+        ln = [2]
+
+        def it(text):
+            ln[0] += 1
+            return item_tree("-", f"{text} {ln[0]}", None, ln[0])
+
+        def hd(level, text):
+            ln[0] += 1
+            return header_tree(level, H[level], text, ln[0])
+
+        def block(*items):
+            return T("block", kids=list(items))
+
+        parts = [head_tree("title", 1)]
+        if loose:
+            parts.append(block(it("loose a"), it("loose b")))
+        if early:
+            parts.append(T("h2_section", kids=[hd(2, "Early"), block(it("early")), T("h3_section", kids=[hd(3, "Early3"), block(it("early3"))])]))
+            parts.append(T("h2_section", kids=[hd(2, "Early again"), block(it("early again"))]))
+        parts.append(T("h1_section", kids=[hd(1, "A"), block(it("a1"), it("a2")),
+                                           T("h2_section", kids=[hd(2, "A2"), block(it("a2x")), T("h3_section", kids=[hd(3, "A3"), block(it("a3x")), T("h4_section", kids=[hd(4, "A4"), block(it("a4x"), it("a4y"))])]),
+                                                                 T("h3_section", kids=[hd(3, "A3b"), block(it("a3b"))])]),
+                                           T("h2_section", kids=[hd(2, "A2b"), block(it("a2b"))])]))
+        parts.append(T("h1_section", kids=[hd(1, "B"), block(it("b1"))]))
+        D = Driver(model)
+        st = State()
+        try:
+            root = D.new_listener(st, tree0)
+            pg = st.obj(root).fields.get("page")
+            if not isinstance(pg, Ref):
+                run.undecided(rid, "ZorgFileCompiler", "the listener has no `page` object")
+                return
+            for f in ("h1s", "events"):  # the typestate snapshot keeps these as unordered collections; a concrete page has lists
+                st.obj(pg).fields[f] = st.alloc(HObj("list"))
+            st.obj(pg).fields["h0"] = None
+            raised = None
+            for part in parts:
+                raised = D.walk(st, root, part)
+                if raised is not None:
+                    break
+            res = None if raised is not None or st.imprecise else D.I.run_function("zorg.domain.models._page.Page.notes", [pg], st=st)
+        except Exception as e:  # noqa: BLE001
+            run.undecided(rid, "ZorgFileCompiler", f"{label}: cannot drive the listener: {type(e).__name__}: {str(e)[:120]}")
+            continue
+        if res is None or len(res) != 1:
+            run.undecided(rid, "ZorgFileCompiler", f"{label}: " + (f"raises {raised.exc}" if raised is not None else "; ".join(st.imprecise[:2]) or "Page.notes forks"))
+            continue
+        v, s = res[0]
+        if isinstance(v, Raised) or s.imprecise or not isinstance(v, Ref) or s.obj(v).kind != "list":
+            run.undecided(rid, "Page.notes", f"{label}: " + (f"raises {v.exc}" if isinstance(v, Raised) else "; ".join(s.imprecise[:2]) or f"returns {v!r}"))
+            continue
+        n_pages += 1
+        got = [x.tag if isinstance(x, Opaque) and x.cls == "note" else repr(x) for x in s.obj(v).items]
+        want = [str(i) for i in range(len(D.notes))]
+        lines = [n.get("line_no") for n in D.notes]
+        run.check(rid, f"{label}: every item built one note", len(D.notes) == sum(1 for p in _items_of(parts)), "ZorgFileCompiler", f"{label}: {len(D.notes)} notes built, lines {lines}",
+                  f"a page with {label}: {len(D.notes)} notes are built for {sum(1 for p in _items_of(parts))} items (lines {lines})", file="src/zorg/service/compiler/_file_compiler.py")
+        run.check(rid, f"{label}: the page holds every note built, once, in file order", got == want, "ZorgFileCompiler", f"{label}: Page.notes -> notes #{got}",
+                  f"a page with {label}: the listener builds {len(D.notes)} notes (lines {lines}) but the page's own `notes` yields notes #{got}, expected #{want}: notes of a section that is not attached "
+                  "to the page (e.g. the implicit top-level section of an H2 that precedes the first H1) are lost without any error, or notes come out of file order", file="src/zorg/service/compiler/_file_compiler.py")
+    run.floor("pages built through the listener and read back through Page.notes", n_pages, 4)
+
+
+def _items_of(parts):
+    for p in parts:
+        if hasattr(p, "kids"):
+            if getattr(p, "rule", None) == "item":
+                yield p
+            else:
+                yield from _items_of(p.kids)
+
+
 def check(run: Run) -> None:
     model = PyModel(run.repo)
     run.rule("C01.R1", "handler agreement: every enter*/exit* override names a grammar rule / listener method; the walker hooks are not overridden")
@@ -185,6 +274,7 @@ def check(run: Run) -> None:
 
     # kind, priority, identity, body and look-alike words: generic items driven through the listener in walker order
     item_rules(run, model, ts.tree0, "C01.R3", "C01.R4", "C01.R5")
+    built_page_scenarios(run, model, ts.tree0)
     notes_in_file_order(run, model)
     todo_values = sorted(v for v in members if v != "-")
     run.check("C01.R3", "todo_prefix tokens == NoteType todo values", lits == todo_values, "ZorgFileParser/NoteType", f"{lits} vs {todo_values}",
